@@ -450,36 +450,58 @@ def judge_resume(case, workdir, scn):
                 "events": 0, "nontrivial_keys": [], "digest": digest_of("collapsed"), "probes": {"collapsed_population": 1}}
     d_ref = _digest_run(ref)
     n_calls = ref["model"].n_concrete_like_calls
-    V, evaluations, resumes, states = [], 1, 0, set()
-    for k in range(1, n_calls):
-        c = run(case, scn, workdir, crash_at=k, collect=True, probes=False)
-        evaluations += 1
-        if c["status"] != "crashed":
-            continue
-        if not c["payloads"]:
-            continue
-        it, blob = c["payloads"][-1]
-        if it in states:
-            continue
-        states.add(it)
+    hb_ref = [float(to_np(b)) for b in ref["history"].beta]
+    V, evaluations, resumes, states, crashes = [], 1, 0, set(), 0
+    quick = case.get("tier") == "quick"
+    ks = list(range(1, n_calls))
+    if quick and len(ks) > 1:
+        # every run re-traces and compiles the kernel (seconds each): the quick tier crashes ONE run for real, at a drawn call
+        # after the first checkpoint, and takes one more durable state straight from the reference's payloads (the crashed
+        # run's payloads are a prefix of them: same seeds, same key)
+        ks = [int(rng_from(case["fault_seed"] + 3).integers(2, n_calls))] if n_calls > 2 else ks
+
+    def judge_resumed(it, blob, how):
+        nonlocal evaluations, resumes
         r = run(case, scn, workdir, resume=blob, probes=False)
         evaluations += 1
         resumes += 1
         wr = {**where, "resumed_iteration": it}
         if r["status"] != "ok":
             V.append(O.violation("c11.resume_failed", f"BlackJAXSMC resumed from the iteration-{it} checkpoint raised {r['error']}", wr))
-            continue
-        hb_ref = [float(to_np(b)) for b in ref["history"].beta]
+            return
         hb = [float(to_np(b)) for b in r["history"].beta]
         if hb != hb_ref:
-            V.append(O.violation("c11.schedule", f"BlackJAXSMC resumed via bytes from iteration {it} (crash at eager likelihood call {k}): "
+            V.append(O.violation("c11.schedule", f"BlackJAXSMC resumed via bytes from iteration {it} ({how}): "
                                  f"temperatures {hb} differ from the uninterrupted run's {hb_ref}", wr))
         elif _digest_run(r) != d_ref:
             dx = float(np.max(np.abs(np.asarray(to_np(r["samples"].x), dtype=np.float64) - np.asarray(to_np(ref["samples"].x), dtype=np.float64)))) \
                 if np.shape(to_np(r["samples"].x)) == np.shape(to_np(ref["samples"].x)) else None
-            V.append(O.violation("c11.populations", f"BlackJAXSMC resumed via bytes from iteration {it} (crash at eager likelihood call {k}): the final "
+            V.append(O.violation("c11.populations", f"BlackJAXSMC resumed via bytes from iteration {it} ({how}): the final "
                                  f"population / evidence differ from the uninterrupted run (max |dx| = {dx})", wr))
+        elif len(r["history"].sample_history) != len(ref["history"].sample_history):
+            V.append(O.violation("c11.history_populations", f"BlackJAXSMC resumed via bytes from iteration {it} ({how}): the history holds "
+                                 f"{len(r['history'].sample_history)} populations, the uninterrupted run's {len(ref['history'].sample_history)}", wr))
+
+    for k in ks:
+        c = run(case, scn, workdir, crash_at=k, collect=True, probes=False)
+        evaluations += 1
+        if c["status"] != "crashed":
+            continue
+        crashes += 1
+        if not c["payloads"]:
+            continue
+        it, blob = c["payloads"][-1]
+        if it in states:
+            continue
+        states.add(it)
+        judge_resumed(it, blob, f"crash at eager likelihood call {k}")
+    if quick:
+        rest = [(it, blob) for it, blob in ref["payloads"] if it not in states]
+        if rest:
+            it, blob = rest[int(rng_from(case["fault_seed"] + 4).integers(len(rest)))]
+            states.add(it)
+            judge_resumed(it, blob, "the payload the uninterrupted run's callback received")
     return {"violations": V, "aborted": None, "evaluations": evaluations, "events": n_calls, "iterations": len(ref["history"].beta),
-            "probes": {"blackjax_resumed_runs": resumes, "blackjax_crash_points": n_calls - 1}, "faults_fired": {"crash_like": evaluations - 1 - resumes, "restart:bytes": resumes},
+            "probes": {"blackjax_resumed_runs": resumes, "blackjax_crash_points": crashes}, "faults_fired": {"crash_like": crashes, "restart:bytes": resumes},
             "nontrivial_keys": [["blackjax_smc", scn["_precond"], scn["_schedule_mode"], "resumed"]] if resumes else [],
             "digest": d_ref, "sample": jsonable({"blackjax": True, "resumed_from": sorted(x for x in states if x is not None)})}
